@@ -509,4 +509,96 @@ example (k : StreamKind) (isLazy : Bool) :
     exact ⟨o1, h⟩
 example : specNote exNotes 1 = some ⟨2#32, [0x61, 0x62], none, 0#32⟩ ∧ specNote exNotes 2 = none := by decide
 
+/-! ### 2f. arrays (C14: `.init_array`, `.fini_array`, `.preinit_array`, …) -/
+
+/-- the entries of a table of `w`-byte integers, decoded from its bytes in the declared byte order -/
+def decodeArr (e : Enc) (w : Nat) (c : Bytes) : List Nat :=
+  (List.range (c.length / w)).map fun k => decodeInt e (slice c (k * w) w)
+
+theorem encodeArr_of_fn (e : Enc) (w : Nat) (hw : 0 < w) :
+    ∀ (n : Nat) (c : Bytes), c.length = n * w →
+      Spec.encodeArrTable e w ((List.range n).map fun k => decodeInt e (slice c (k * w) w)) = c := by
+  intro n
+  induction n with
+  | zero =>
+    intro c hc
+    have : c = [] := List.eq_nil_of_length_eq_zero (by simpa using hc)
+    subst this; rfl
+  | succ n ih =>
+    intro c hc
+    have hl : w ≤ c.length := by rw [hc, Nat.succ_mul]; omega
+    rw [List.range_succ_eq_map, List.map_cons, List.map_map, Spec.encodeArrTable]
+    have h0 : slice c (0 * w) w = c.take w := by simp [slice]
+    have htl : (c.take w).length = w := by simp; omega
+    have e1 : encodeInt e w (decodeInt e (c.take w)) = c.take w := by
+      have := encode_decodeInt e (c.take w); rwa [htl] at this
+    have e2 : (List.range n).map ((fun k => decodeInt e (slice c (k * w) w)) ∘ Nat.succ) =
+        (List.range n).map fun k => decodeInt e (slice (c.drop w) (k * w) w) := by
+      apply List.map_congr_left
+      intro k _
+      simp only [Function.comp, slice, List.drop_drop]
+      congr 3
+      rw [Nat.succ_mul]; omega
+    rw [h0, e1, e2, ih (c.drop w) (by simp [hc, Nat.succ_mul])]
+    exact List.take_append_drop w c
+
+theorem encode_decodeArr (e : Enc) (w : Nat) (hw : 0 < w) (c : Bytes) (h : c.length % w = 0) :
+    Spec.encodeArrTable e w (decodeArr e w c) = c :=
+  encodeArr_of_fn e w hw (c.length / w) c (by have := Nat.div_add_mod c.length w; rw [h] at this; rw [Nat.mul_comm]; omega)
+
+theorem decodeInt_lt (e : Enc) (bs : Bytes) : decodeInt e bs < 2 ^ (8 * bs.length) := by
+  cases e
+  · exact leDecode_lt bs
+  · have := leDecode_lt bs.reverse; simpa [decodeInt, beDecode] using this
+
+theorem decodeArr_get (e : Enc) (w : Nat) (hw : 0 < w) (c : Bytes) (h : c.length % w = 0) (k : Nat) :
+    (if hk : k < (decodeArr e w c).length then some ((decodeArr e w c)[k] % 2 ^ (8 * w)) else none) =
+      Spec.tableEntry e w c k := by
+  have hlen : (decodeArr e w c).length = c.length / w := by simp [decodeArr]
+  unfold Spec.tableEntry
+  have hiff : k < c.length / w ↔ (k + 1) * w ≤ c.length := by
+    rw [Nat.lt_iff_add_one_le, Nat.le_div_iff_mul_le hw]
+  by_cases hk : k < c.length / w
+  · rw [dif_pos (by rw [hlen]; exact hk), if_pos (hiff.mp hk)]
+    simp only [decodeArr, List.getElem_map, List.getElem_range]
+    have hb := decodeInt_lt e (slice c (k * w) w)
+    have hsl : (slice c (k * w) w).length = w := slice_length_of_le (by have := hiff.mp hk; rw [Nat.add_mul] at this; omega)
+    rw [hsl] at hb
+    rw [Nat.mod_eq_of_lt hb]
+  · rw [dif_neg (by rw [hlen]; exact hk), if_neg (fun h => hk (hiff.mpr h))]
+
+/-- **array_reports_spec** : for a file-occupying section `i` whose size is a whole number of `w`-byte
+    entries (`w` = 4 or 8, the accessor's template parameter, independent of the ELF class),
+    `array_section_accessor<w>(elf, sections[i]).get_entry(k, address)` on the loaded object is, for EVERY 64-bit
+    `k`, the `k`-th `w`-byte integer of the section's file bytes in the file's byte order
+    (`Spec.tableEntry`), and false for every `k` at or beyond `sh_size / w`. -/
+theorem array_reports_spec (img : Bytes) (hwf : WellFormedImage img) (o : Obj) (hL : LoadedFrom img o) (i : Nat)
+    (hi : i < eh img "e_shnum") (hocc : occupiesFile (sh img i "sh_type") = true) (w : Arr.W)
+    (hwhole : sh img i "sh_size" % w.bytes = 0) (k : BitVec 64) :
+    ∃ o1 b1, secResident o i = some (o1, b1) ∧ LoadedFrom img o1 ∧
+      Arr.getEntry w (encOf img) b1 k =
+        .ok ((Spec.tableEntry (encOf img) w.bytes (secFileBytes img i) k.toNat).map (BitVec.ofNat 64)) := by
+  obtain ⟨o1, b1, h1, hL1, hR1, _⟩ := secResident_ready img hwf o hL i hi
+  obtain ⟨hinv, hcont⟩ := hR1.inv hocc
+  have hw : 0 < w.bytes := by cases w <;> decide
+  have hlen := hR1.fileBytes_length hwf hi hocc
+  have henc := encode_decodeArr (encOf img) w.bytes hw (secFileBytes img i) (by rw [hlen]; exact hwhole)
+  have hg := C14.array_get w (encOf img) b1 hinv (decodeArr (encOf img) w.bytes (secFileBytes img i))
+    (by rw [hcont, henc]) k
+  refine ⟨o1, b1, h1, hL1, ?_⟩
+  rw [hg, ← decodeArr_get (encOf img) w.bytes hw _ (by rw [hlen]; exact hwhole)]
+  split <;> rfl
+
+example (k : StreamKind) (isLazy : Bool) :
+    ∃ r : LoadRes, load {} { data := exImg, kind := k } isLazy = .ok r ∧
+      ∀ idx : BitVec 64, ∃ o1 b1, secResident r.obj 7 = some (o1, b1) ∧ Arr.getEntry .w4 (encOf exImg) b1 idx =
+        .ok ((Spec.tableEntry (encOf exImg) 4 (secFileBytes exImg 7) idx.toNat).map (BitVec.ofNat 64)) := by
+  obtain ⟨r, h1, _, h3⟩ := of_load exImg {} k isLazy rfl exImg_wf
+  refine ⟨r, h1, fun idx => ?_⟩
+  obtain ⟨o1, b1, g1, _, g2⟩ := array_reports_spec exImg exImg_wf r.obj h3 7 (by decide +kernel) (by decide +kernel)
+    .w4 (by decide +kernel) idx
+  exact ⟨o1, b1, g1, g2⟩
+example : Spec.tableEntry (encOf exImg) 4 (secFileBytes exImg 7) 2 = some 0xdeadbeef ∧
+    Spec.tableEntry (encOf exImg) 4 (secFileBytes exImg 7) 3 = none := by decide +kernel
+
 end ElfioVerif.ComposeTables
